@@ -223,7 +223,11 @@ impl Insert {
             new_keys_set.insert(keys);
         }
         if !string_pool.has_room_for(
-            new_rows.iter().flatten().filter_map(Value::as_str),
+            new_rows
+                .iter()
+                .flatten()
+                .filter_map(Value::as_str)
+                .map(|string| (string, 1)),
             0,
         ) {
             invalid_input!(
@@ -780,8 +784,12 @@ impl Update {
                 )
             })
             .count();
+        let num_matched = should_update.iter().filter(|&&m| m).count();
         if !string_pool.has_room_for(
-            updates.iter().filter_map(|upd| upd.1.as_str()),
+            updates
+                .iter()
+                .filter_map(|upd| upd.1.as_str())
+                .map(|string| (string, num_matched)),
             num_freed,
         ) {
             invalid_input!(
